@@ -40,6 +40,9 @@ pub fn tag(a: &[String]) {
             println!("eq_yx={}", y == x);
             println!("cmp_xy={:?}", x.cmp(&y));
             println!("cmp_yx={:?}", y.cmp(&x));
+            println!("pcmp_xy={:?}", x.partial_cmp(&y));
+            println!("pcmp_yx={:?}", y.partial_cmp(&x));
+            println!("lt_xy={}", x < y);
             println!("hash_eq={}", h(&x) == h(&y));
             println!("name_x={}", hex(&name_of(&x)));
             println!("name_y={}", hex(&name_of(&y)));
